@@ -131,6 +131,17 @@ func c20Values[V any](out *Out, tier string, caseID *int, ty string, gen func(i 
 				s.AddValues(seq())
 				return s
 			}, nil)
+			// a collator that does NOT order naturally: dropping it on any path shows
+			rev := func() age.CollatorLike[V] { return &revCollator[V]{age.Collator[V]().Make()} }
+			clsRev := func() any {
+				s := col.Set[V](notation).MakeWithCollator(rev())
+				s.AddValues(seq())
+				return s
+			}
+			emit("Set", "collator+goarray", func() any { return mod.Set[V](withNotation(np, rev(), vs)...) }, clsRev, J{"rev": true})
+			emit("Set", "collator+sequence", func() any { return mod.Set[V](withNotation(np, rev(), seq())...) }, clsRev, J{"rev": true})
+			emit("Set", "collator+source", func() any { return mod.Set[V](withNotation(np, rev(), sourceOf("Set", items))...) }, clsRev,
+				J{"rev": true, "srcitems": safeParseItems(sourceOf("List", items))})
 			// Stack
 			emit("Stack", "goarray", func() any { return mod.Stack[V](withNotation(np, vs)...) }, func() any { return col.Stack[V](notation).MakeFromArray(vs) }, nil)
 			emit("Stack", "sequence", func() any { return mod.Stack[V](withNotation(np, seq())...) }, func() any { return col.Stack[V](notation).MakeFromSequence(seq()) }, nil)
@@ -170,6 +181,29 @@ func sizesFor(tier string) []int {
 		return all
 	}
 	return []int{0, 1, 2, 3, 15, 16, 17, 20}
+}
+
+// revCollator ranks in the opposite order of the collator it wraps
+type revCollator[V any] struct{ inner age.CollatorLike[V] }
+
+func (c *revCollator[V]) GetClass() age.CollatorClassLike[V] { return c.inner.GetClass() }
+func (c *revCollator[V]) GetDepth() int                      { return c.inner.GetDepth() }
+func (c *revCollator[V]) GetMaximum() int                    { return c.inner.GetMaximum() }
+func (c *revCollator[V]) CompareValues(a, b V) bool          { return c.inner.CompareValues(a, b) }
+func (c *revCollator[V]) RankValues(a, b V) age.Rank         { return c.inner.RankValues(b, a) }
+
+// the items of a source as the parser delivers them (in source order)
+func safeParseItems(src string) []any {
+	var v any
+	cr := guarded(5*time.Second, func() { v = notation.ParseSource(src) })
+	if cr.kind != "ret" {
+		return nil
+	}
+	var out []any
+	for _, x := range v.(col.Sequential[any]).AsArray() {
+		out = append(out, encVal(x))
+	}
+	return out
 }
 
 func safeParse(src string) J {
